@@ -236,6 +236,13 @@ class Engine:
         else:
             self.sink(st)  # dead path: keep its obligations
 
+    def heap_field(self, st, t, name):
+        """current value of the heap array of a mutable field of an opaque class (Boogie style: one array Ref -> T per field)"""
+        key = ("mf", t.name, name)
+        if key not in st.ghost:
+            st.ghost[key] = z3.Array(f"heap0.{t.name}.{name}", t.z3sort(), t.mutable[name].z3sort())
+        return st.ghost[key]
+
     def _register_obligation(self, o, tags):
         if id(o) not in self._obl_ids:
             self._obl_ids.add(id(o))
@@ -294,6 +301,12 @@ class Engine:
         if isinstance(v, SStr):
             yield from self.branch(st, v.z != str_const(""), note)
             return
+        if isinstance(v, self.B.X.SExt):
+            yield from self.branch(st, z3.Not(z3.And(v.finite(), v.v == 0)), note)     # only a finite zero is falsy (inf and nan are truthy)
+            return
+        if isinstance(v, float):
+            yield st, bool(v)
+            return
         if isinstance(v, (int, Fraction, str, tuple, frozenset, list, dict, set)):
             yield st, bool(v)
             return
@@ -329,6 +342,12 @@ class Engine:
         if isinstance(v, SRef) and getattr(v.t, "null", None) is not None:
             for s2, isnull in self.branch(st, v.z == v.t.null, note):
                 yield s2, not isnull
+            return
+        if isinstance(v, SRef) and getattr(v.t, "iter_items", None) is not None:
+            # a reference standing for a python list / tuple: empty is falsy
+            n = self.B._uf(f"{v.t.name}.items.len", v.t.z3sort(), z3.IntSort())(v.z)
+            st.assume(n >= 0)
+            yield from self.branch(st, n > 0, note)
             return
         if isinstance(v, (SRef, SEnum, Struct, BoundMethod, Closure, ExcVal)):
             yield st, True
@@ -888,6 +907,11 @@ class Engine:
                 elif isinstance(obj, Loc) and isinstance(s.load(obj), Rec):
                     s.setfield(obj, target.attr, v)
                     yield s, NORMAL
+                elif isinstance(obj, SRef) and target.attr in obj.t.mutable:
+                    for s2, vv in self.force(s, v):
+                        arr = self.heap_field(s2, obj.t, target.attr)
+                        s2.ghost[("mf", obj.t.name, target.attr)] = z3.Store(arr, obj.z, to_z3(vv, obj.t.mutable[target.attr]))
+                        yield s2, NORMAL
                 else:
                     raise Unsupported(f"attribute store on {obj!r}.{target.attr}")
         elif isinstance(target, ast.Subscript):
@@ -1002,13 +1026,20 @@ class Engine:
     bounded_used = False
 
     def _frame_snapshot(self, st):
-        return ({k: v for k, v in st.frame.vars.items()}, dict(st.heap))
+        return ({k: v for k, v in st.frame.vars.items()}, dict(st.heap), {k: v for k, v in st.ghost.items() if isinstance(k, tuple) and k and k[0] == "mf"})
 
     def _frame_check(self, node, spec, snap, st, label):
         """the loop body may only write what the cut-point havoced: a write outside the `modifies` clause would make the assumed
         invariant refer to a stale value (unsound), so it is an obligation failure"""
-        vars0, heap0 = snap
+        vars0, heap0 = snap[0], snap[1]
+        mf0 = snap[2] if len(snap) > 2 else {}
         names = set(spec.modifies if spec.modifies is not None else _assigned_names(node)) | set(spec.opaque)
+        for k, v in st.ghost.items():
+            if isinstance(k, tuple) and k and k[0] == "mf" and f"heap:{k[1]}.{k[2]}" not in names:
+                if k in mf0 and not z3.eq(mf0[k], v):
+                    st.oblige(f"{label}:frame: the loop assigns attribute `{k[2]}` of a {k[1]} object, which is not in its modifies clause", z3.BoolVal(False))
+                elif k not in mf0 and not z3.is_const(v):
+                    st.oblige(f"{label}:frame: the loop assigns attribute `{k[2]}` of a {k[1]} object, which is not in its modifies clause", z3.BoolVal(False))
         plain = {n for n in names if "." not in n}
         dotted = {n for n in names if "." in n}
         for k, v in st.frame.vars.items():
@@ -1060,6 +1091,11 @@ class Engine:
             self.abstracted.add(f"{st.frame.fname}:{name}")
         for name in names:
             if name in spec.opaque:
+                continue
+            if name.startswith("heap:"):
+                tname, fld = name[5:].split(".", 1)
+                t = Ref._registry[tname]
+                st.ghost[("mf", tname, fld)] = z3.Array(fresh_name(f"heap.{tname}.{fld}"), t.z3sort(), t.mutable[fld].z3sort())
                 continue
             if "." in name and name.split(".", 1)[0] in st.frame.vars and isinstance(st.frame.vars[name.split(".", 1)[0]], Loc):
                 selfv = st.frame.vars[name.split(".", 1)[0]]
@@ -1192,7 +1228,7 @@ class Engine:
                     if out is not NORMAL:
                         yield s2, out
                         continue
-                    snap2 = ({k: v for k, v in snap[0].items() if k not in tnames} | {k: s2.frame.vars[k] for k in tnames if k in s2.frame.vars}, snap[1])
+                    snap2 = ({k: v for k, v in snap[0].items() if k not in tnames} | {k: s2.frame.vars[k] for k in tnames if k in s2.frame.vars}, snap[1], snap[2])
                     for s3, out2 in self.exec_block(node.body, s2):
                         if out2 is NORMAL or out2[0] == "continue":
                             self._oblige_inv(spec, s3, {"_i": i + 1, "_seq": seq, "_pre": pre}, label + ":preserve")
@@ -1601,6 +1637,9 @@ class Engine:
                     yield s2, ExcVal(AttributeError, (name,), self.where(s2, node) if node else "")
                 else:
                     yield from self.getattr(s2, obj, name, node, _nonnull=True)
+            return
+        if isinstance(obj, SRef) and name in obj.t.mutable:
+            yield st, obj.t.mutable[name].wrap(z3.Select(self.heap_field(st, obj.t, name), obj.z))
             return
         if isinstance(obj, SRef):
             t = obj.t
